@@ -130,6 +130,14 @@ const std::string *strOwned(int n) {
     sim_handout(s, "string");
     return s;
 }
+const std::string *strFinal(int n) {
+    Guard g;
+    // a new string that the wrapper copies into a fixed-length result and then deletes
+    // (user-supplied 'final' clause, the documented idiom)
+    std::string *s = new std::string(pattern(n));
+    sim_handout(s, "string");
+    return s;
+}
 const std::string *strLib() {
     Guard g;
     if (!g_lib_string) { g_lib_string = new std::string("library-owned-string"); sim_keep(g_lib_string, "string"); }
